@@ -137,6 +137,8 @@ def run(cx):
     cx.guard(_r07h, cx, repo)
     cx.rule("R07i", "a parent-build map that is an entry of the per-branch cache is never changed in place")
     cx.guard(_r07i, cx, repo)
+    cx.rule("R07j", "the component builds registered at a parent build come from that build's own bump (both ends), not from a narrower memo")
+    cx.guard(_r07j, cx, repo)
 
 
 CONTROL = """
@@ -478,3 +480,76 @@ def _r07i(cx, repo):
               "change with it, later builds made from those commits get wrong predecessor builds, and component builds already shipped are reported again")
     if not bad:
         cx.ob("R07i", f, True, f"no in-place change reaches a map that is an entry of `{name}` ({n_reads} reads followed through aliases, branches and the loop)", stmt="cached maps frozen")
+
+
+# ------------------------------------------------------------------------------------------------ R07j
+def _r07j(cx, repo):
+    """RGraph.__init__ records, for every parent build, the component builds its bump ships (`included_at`).  What a bump ships is
+    a function of the whole bump - `get_rbuilds_in_bump` reads both ends (`from_rbuilds`, `to_rbuild`).  The registered builds
+    must therefore come from the bump of the parent build at hand: either the call itself, or a memo whose key covers every
+    attribute the method reads (s171: memo keyed by the target build only - two parent builds reaching the same component build
+    from different pins share one answer)."""
+    from sa.guards import reaching_def
+    init = cx.func(REL, "RGraph.__init__", "R07j")
+    meth = cx.func(REL, "ComponentBump.get_rbuilds_in_bump", "R07j")
+    read_attrs = sorted({n.attr for n in ast.walk(meth) if isinstance(n, ast.Attribute) and isinstance(n.value, ast.Name) and n.value.id == "self" and isinstance(n.ctx, ast.Load)
+                         and not isinstance(parent(n), ast.Call)} - {"get_rbuilds_in_bump"})
+    cx.need(len(read_attrs) >= 2, "R07j", meth, f"attributes of the bump read by get_rbuilds_in_bump: {read_attrs}")
+    sites = [c for c in walk_local(init) if isinstance(c, ast.Call) and isinstance(c.func, ast.Attribute) and c.func.attr in ("append", "add", "extend")
+             and isinstance(c.func.value, ast.Attribute) and c.func.value.attr == "included_at"]
+    cx.at_least("R07j", "registrations into included_at", len(sites), 1)
+
+    def strip(e):
+        while isinstance(e, ast.Call) and isinstance(e.func, ast.Attribute) and e.func.attr in ("values", "items", "keys") and not e.args:
+            e = e.func.value
+        while isinstance(e, ast.Call) and call_name(e) in ("list", "tuple", "sorted", "iter", "reversed") and len(e.args) == 1:
+            e = strip(e.args[0])
+        return e
+    for c in sites:
+        loops = enclosing_loops(c, stop=init)
+        cx.need(bool(loops), "R07j", c, "registration is not inside a loop over the builds of the bump")
+        l = loops[0]
+        e = strip(l.iter)
+        if isinstance(e, ast.Name):
+            rd = reaching_def(e.id, l, calls=True, containers=True)
+            cx.need(rd is not None, "R07j", l, f"what `{e.id}` stands for is not decided")
+            e = strip(rd[0])
+        if isinstance(e, ast.Call) and isinstance(e.func, ast.Attribute) and e.func.attr == "get_rbuilds_in_bump":
+            recv = e.func.value
+            outer = {x.id for ll in loops[1:] for x in ast.walk(ll.target) if isinstance(x, ast.Name)}
+            src = recv
+            if isinstance(recv, ast.Name):
+                rd = reaching_def(recv.id, l, calls=True, containers=True)
+                src = rd[0] if rd else recv
+            ok = bool(names_in(src) & outer)
+            cx.need(ok, "R07j", l, f"the bump `{norm(recv)}` is not taken from the parent build of the current iteration: not decided")
+            cx.ob("R07j", l, True, "the builds registered are computed from the bump of the parent build at hand")
+            continue
+        if isinstance(e, ast.Subscript) or (isinstance(e, ast.Call) and isinstance(e.func, ast.Attribute) and e.func.attr in ("get", "setdefault")):
+            cont = e.value if isinstance(e, ast.Subscript) else e.func.value
+            key = e.slice if isinstance(e, ast.Subscript) else (e.args[0] if e.args else None)
+            fills = [st for st in walk_local(init) if isinstance(st, ast.Assign) and any(isinstance(t, ast.Subscript) and norm(t.value) == norm(cont) for t in st.targets)
+                     and any(isinstance(x, ast.Call) and isinstance(x.func, ast.Attribute) and x.func.attr == "get_rbuilds_in_bump" for x in ast.walk(st.value))]
+            cx.need(bool(fills) and key is not None and isinstance(cont, ast.Name), "R07j", l, f"`{norm(e)[:60]}`: not a memo of get_rbuilds_in_bump filled in this function: not decided")
+            bad = None
+            for st in fills:
+                t = next(t for t in st.targets if isinstance(t, ast.Subscript))
+                k = t.slice
+                kk = k
+                if isinstance(k, ast.Name):
+                    rd = reaching_def(k.id, st, calls=True, containers=True)
+                    kk = rd[0] if rd else k
+                call = next(x for x in ast.walk(st.value) if isinstance(x, ast.Call) and isinstance(x.func, ast.Attribute) and x.func.attr == "get_rbuilds_in_bump")
+                bump = norm(call.func.value)
+                whole = any(norm(x) == bump and not isinstance(parent(x), ast.Attribute) for x in ast.walk(kk)) if not isinstance(kk, ast.Name) else norm(kk) == bump
+                mentioned = {x.attr for x in ast.walk(kk) if isinstance(x, ast.Attribute) and norm(x.value) == bump}
+                missing = [a for a in read_attrs if a not in mentioned]
+                if not whole and missing:
+                    bad = (st, norm(kk), missing)
+            if bad:
+                cx.ob("R07j", bad[0], False, semantic=True, detail=f"the builds shipped by a bump are memoised under `{bad[1][:50]}`, which leaves out {bad[2]} - attributes get_rbuilds_in_bump reads: "
+                      "two parent builds that reach the same component build from different pins share one answer, so a component build is missing at the first parent build that ships it or recorded at a later one")
+            else:
+                cx.ob("R07j", l, True, "memo of get_rbuilds_in_bump keyed by everything the method reads")
+            continue
+        cx.need(False, "R07j", l, f"source of the registered builds `{norm(l.iter)[:60]}` not recognised: not decided")
